@@ -230,3 +230,14 @@ def split_off(s, sep, k):
 def is_in(x, lst):
     """smt-builtin: x is (identity) one of the elements of lst"""
     return any(x is e for e in lst)
+
+
+# ----------------------------------------------------------------------------- placeholders of a definition (C09)
+def count_of(s, c):
+    """smt-builtin: s.count(c)"""
+    return s.count(c)
+
+
+def n_hash_tags(L: "List[HedTag]", n: "Int") -> "Int":
+    """number of tags among the first n of L whose text contains a '#'"""
+    return 0 if n <= 0 else n_hash_tags(L, n - 1) + (1 if count_of(L[n - 1].__str__, '#') > 0 else 0)
